@@ -21,7 +21,7 @@ func init() {
 		Level: "model_checking",
 		Rule: "applications with language switches before the first HALT, while handling input at the entry node, in a child node and immediately before the end x switch answers {nor,no,eng,swa,xx,norsk with LANG; nor without LANG} chosen per call x Config.Language {'',nor} x translations present for every subset of {entry template, child template, menu label} x all input histories up to depth d x {long-lived, persisted-mem, persisted-fs}; " +
 			"reference VM in lockstep (current language = config, then last valid code; rendered text = translation where present, default otherwise; external functions receive the language) plus: every template/menu/function lookup of a request carries the language current before or after that request, and render-time lookups carry the one after it; states = distinct (app, position, language); non-trivial = executions with >=2 effective switches or an invalid code after a valid one",
-		Assumptions: []string{"an empty language code with LANG set is outside the alphabet (the code treats it as reset; the statement does not cover it)", "the recording in-memory resource is used; resource.DbResource's translation lookup is covered by C10's fallback rule"},
+		Assumptions: []string{"an empty language code with LANG set is outside the alphabet (the code treats it as reset; the statement does not cover it)", "two resources: the harness's recording in-memory resource (per-lookup language check) and the library's resource.DbResource over db/mem (rendered text only); resource/gettext.go (PoResource) is not exercised"},
 		Run:         c18Run,
 		Replay:      c18Replay,
 		MinItems:    50,
@@ -177,9 +177,10 @@ func c18Run(c *mc.Ctx) {
 	}
 	c.Note("history_depth", fmt.Sprint(depth))
 	c.Note("non_default_switch_answers_per_execution", fmt.Sprint(dev))
-	backends := []lsOpts{{Mode: "long-lived"}, {Mode: "persisted", Backend: "mem"}}
+	// the last two serve the application through the library's resource.DbResource over db/mem
+	backends := []lsOpts{{Mode: "long-lived"}, {Mode: "persisted", Backend: "mem"}, {Mode: "long-lived", DbRes: true}}
 	if c.Thorough() {
-		backends = append(backends, lsOpts{Mode: "persisted", Backend: "fs"})
+		backends = append(backends, lsOpts{Mode: "persisted", Backend: "fs"}, lsOpts{Mode: "persisted", Backend: "mem", DbRes: true})
 	}
 	for _, early := range []bool{false, true} {
 		for _, cl := range []string{"", "nor"} {
